@@ -43,7 +43,7 @@ def gen_value(rng, feat, depth=0, placeholders=None):
     if r < 0.5:
         return rng.choice([0, 1, 2, 5, -3, 10 ** 12, 7])
     if r < 0.6:
-        return rng.choice([0.5, 2.25, -1.5, 1e-3])
+        return rng.choice([0.5, 2.25, -1.5, 1e-3, 1e-05, 5e-07, 1e+22, 2.5e-09, 1e16])   # (JSON spells the small and large ones without a decimal point)
     if r < 0.7:
         return rng.choice([True, False, None])
     s = ''.join(rng.choice(STR_ALPHABET if feat.get('adversarial_strings') else ['a', 'b', 'x', 'é', ' ', '0', '/'])
@@ -254,6 +254,12 @@ def gen_spec(rng: random.Random, feat=None):
                     # the default value spelled out in the config (it still counts as the default: python equality)
                     v = copy.deepcopy(p['default'])
                     vals[nic] = v
+                elif feat['dtypes'] and feat.get('path_params', True) and 'dtype' not in p and p.get('default', None) is None and rng.random() < 0.07:
+                    # a location given in the config and declared dtype=Path: run receives a Path, the storage key is made from the text as written
+                    p['dtype'] = 'Path'
+                    v = rng.choice(['data/in.csv', '/abs/dir/f', 'rel', 'out/é x'] + (['{DIR}/ratings.csv', '{DIR}/{A}/f', 'sub/{B}'] if placeholders else []))
+                    vals[nic] = v
+                    continue
                 elif need or rng.random() < 0.5:
                     if feat['objects'] and rng.random() < 0.15:
                         v = gen_objdef(rng, feat, placeholders)
@@ -276,7 +282,7 @@ def gen_spec(rng: random.Random, feat=None):
             for p in t['params']:
                 nic = p.get('name_in_config') or p['name']
                 if 'dtype' in p:
-                    py = {'int': int, 'str': str, 'float': float, 'bool': bool, 'list': list, 'dict': dict}[p['dtype']]
+                    py = {'int': int, 'str': str, 'float': float, 'bool': bool, 'list': list, 'dict': dict, 'Path': str}[p['dtype']]
                     for v in ([vals[nic]] if nic in vals else []) + ([p['default']] if 'default' in p else []):
                         if v is not None and not isinstance(v, py):
                             p.pop('dtype', None)
